@@ -49,6 +49,12 @@ def parse_sections(out):
 def make_wordlist(chk, rng, from_file=None, **kw):
     from lingpy import Wordlist
     d = wlgen.gen_wordlist(rng, **kw)
+    if rng.random() < 0.35:
+        # the columns in another order (a cognate-id or concept column first, ...): the order of the columns is the caller's choice
+        perm = list(range(len(d[0])))
+        rng.shuffle(perm)
+        d = {k: [v[i] for i in perm] for k, v in d.items()}
+        chk.hist['wordlist with permuted column order'] += 1
     if from_file and rng.random() < 0.3:
         path = os.path.join(from_file, 'wl%d.tsv' % rng.randrange(10 ** 9))
         with open(path, 'w', encoding='utf8') as f:
@@ -371,6 +377,23 @@ def run_views(chk, which):
                         for k in list(d)[1:4]:
                             if not e and wl[k, alias] != d[k][d[0].index(target)]:
                                 e = 'wl[%d, %r] = %r, the row carries %r in column %r (added after construction)' % (k, alias, wl[k, alias], d[k][d[0].index(target)], target)
+                        # ... and through the views that take a column name: entry tables and entry lists
+                        if not e:
+                            ti = d[0].index(target)
+                            ids_ = [k for k in d if k != 0]
+                            want = sorted(str(d[k][ti]) for k in ids_)
+                            try:
+                                ge = wl.get_entries(alias)
+                                got = sorted(str(x) for line in (ge or []) for x in line if x != 0)
+                                l0 = wl.cols[0]
+                                gl_ = wl.get_list(col=l0, entry=alias, flat=True)
+                                want_l = sorted(str(d[k][ti]) for k in ids_ if str(d[k][d[0].index('doculect')]) == l0)
+                                if ge is None or got != want:
+                                    e = 'get_entries(%r) = %r: the column added after construction is not reachable by this spelling' % (alias, str(ge)[:80])
+                                elif sorted(str(x) for x in gl_) != want_l:
+                                    e = 'get_list(col=%r, entry=%r, flat=True) = %r, the rows carry %r' % (l0, alias, gl_, want_l)
+                            except KeyError as ex:
+                                e = 'a view asked for the column %r (added after construction) by its spelling %r raised KeyError %s' % (target, alias, ex)
                     if not e:
                         # renumber
                         # also columns whose values are numbers - the value 0 is a value like any other, only the empty value maps to 0
